@@ -43,11 +43,15 @@ type gen struct {
 	cmp        func(a, b []byte) int
 	bigJournal bool
 	bigKeys    int // > 0: every key gets a tail of about this many bytes
+	allowEmpty bool // single-client programs also store empty values
 }
 
 func (g *gen) val(maxLen int) V {
 	g.nextID++
 	l := 0
+	if g.allowEmpty && g.r.p(0.04) {
+		return V{ID: g.nextID, Len: 0} // the empty value
+	}
 	switch x := g.r.intn(100); {
 	case x < 60:
 		l = g.r.rng(minValLen, 40)
@@ -631,6 +635,7 @@ func GenCase(prop string, seed uint64, thorough bool) *Case {
 			return cc
 		}
 	}
+	g.allowEmpty = true // everything below is a single-client program
 	c.Knobs = g.knobs(pickCmp(r))
 	g.cmp = comparerByName(c.Knobs.Comparer).Compare
 	c.Sched = g.sched()
